@@ -68,7 +68,7 @@ class C10(Property):
         cases = protomon.gen_cases(ctx.rng, ctx.tier == "quick")
         if ctx.tier == "quick":
             keep = ("schedule", "execute", "failstop", "exhausted", "scatter")
-            cases = [c for c in cases if any(k in c["name"] for k in keep)][:5]
+            cases = [c for c in cases if any(k in c["name"] for k in keep)][:4]
         lines, owners = [], []
         for case, status, r in pmap(protomon.run_observed, cases, timeout=240, workers=5):
             if status != "ok" or not r or r.get("outcome") in ("hang", "harness-error", None):
